@@ -1061,7 +1061,7 @@ def handle (args : List String) : String :=
      | .ok pre =>
        match tokenparser f ks with
        | .error (.internal n) => "err Internal:" ++ n
-       | .error _ => "ok " ++ listToWire (pre.map escape) ++ " err"
+       | .error _ => "err"
        | .ok (st, toks) => "ok " ++ listToWire (pre.map escape) ++ " " ++ (if st then "1" else "0") ++ " " ++ listToWire (toks.map tokToWire))
   | "pack" :: fmt :: kw :: vals :: u :: _ =>
     match kwOfWire? kw.toList, valsOfWire? vals.toList with
